@@ -107,7 +107,7 @@ for kind in (0, 1, 2):
     for cap in (0, 1, 2, 3, 4):
         for mal in (0, 1):
             name = "rb-%d-%d-%d" % (kind, cap, mal)
-            RUNS.append(dict(name=name, prim="ringbuf", cfg="%d %d 1 %d" % (kind, cap, mal), flavours=["local"],
+            RUNS.append(dict(name=name, prim="ringbuf", cfg="%d %d 1 %d" % (kind, cap, mal), flavours=["local"] + (["zst"] if mal == 0 else []),
                              quick=dict(explore=100000), thorough=dict(explore=100000), corpus=False))
             RB_RUNS.append(name)
 RUNS += [
@@ -138,13 +138,13 @@ ALL_RUNS_FOR_PROTOCOL = None
 
 PROPS = {
     "C01": dict(
-        level="proof", extra=["atomic_audit"], coq_files=["Properties/C01.v", "Properties/C20.v"],
+        level="proof", extra=["atomic_audit", "threads"], coq_files=["Properties/C01.v", "Properties/C20.v"],
         theorems={"Properties/C01.v": ["C01_event_queue", "C01_event_no_panic", "C01_mutex_queue", "C01_mutex_no_panic",
                                        "C01_semaphore_queue", "C01_semaphore_no_panic", "C01_mpmc_queues", "C01_mpmc_no_panic",
                                        "C01_oneshot_queue", "C01_oneshot_no_panic", "C01_state_queue", "C01_state_no_panic",
                                        "C01_timer_heap", "C01_timer_no_panic"],
                   "Properties/C20.v": ["C20_list_refines_deque", "C20_heap_refines_tree"]},
-        prims=["event", "mutex", "semaphore", "mpmc", "oneshot", "state", "timer"], keys=["qs", "r"], direct_keys=["qs"], assumptions=[SCHED_NOTE],
+        prims=["event", "mutex", "semaphore", "mpmc", "oneshot", "state", "timer"], keys=["qs", "r"], direct_keys=["qs", "r"], assumptions=[SCHED_NOTE],
         level_text="For each of the seven primitive models, theorem over every reachable state (any history, any number of futures, fair/unfair, every capacity, borrowed/shared handles): the wait queue (timer: the heap) holds exactly the alive, non-terminated futures in the linked state, each once; no contract-respecting call returns a panic or leaves the intrusive-container protocol (add of a linked node / removal of a non-member). Combined with C20 (pointer-level list and heap are memory-safe and exact under exactly that protocol) this is the 'no access to a dropped future' claim. Correspondence: after EVERY operation of every explored history the hook snapshot of the real queue (node addresses mapped to live futures; an address of a dropped future prints as DANGLING) must equal the model's queue, and no call may panic or crash.",
         level_note="Rust aliasing-model UB is not expressible. The harness keeps dropped futures' memory mapped so that a dangling entry is observed rather than crashing. " + SCHED_NOTE,
     ),
@@ -170,14 +170,14 @@ PROPS = {
         technique="Coq theorem (thin) + counting global allocator compared on every step of the correspondence runs",
     ),
     "C02": dict(
-        level="proof", extra=["atomic_audit"], coq_files=["Properties/C02.v"],
+        level="proof", extra=["atomic_audit", "threads"], coq_files=["Properties/C02.v"],
         theorems={"Properties/C02.v": ["C02_guards_le_1", "C02_grant_only_when_free", "C02_guard_count", "C02_is_locked_exact"]},
         runs=MUTEX_RUNS, keys=["r", "p"], assumptions=[SCHED_NOTE], monitor=dict(id=2, runs=["mutex-k3-unfair", "mutex-k3-fair"]),
         level_text="Theorems over every reachable state of the mutex model (any number of lock futures, both fairness modes): guards <= 1, locked iff one guard, a poll/try_lock completes only from a guard-free state and creates exactly one, is_locked() exact. Model tied to the crate by exhaustive model-guided exploration (k=3 fixpoint, local and parking_lot flavours) comparing results, is_locked() and the number of guard objects the harness holds.",
         level_note="Exclusive access to T follows from guards<=1 only under the atomicity assumptions (lock_api mutual exclusion; all state inside the lock). " + SCHED_NOTE,
     ),
     "C03": dict(
-        level="proof", extra=["atomic_audit"], coq_files=["Properties/C03.v"],
+        level="proof", extra=["atomic_audit", "threads"], coq_files=["Properties/C03.v"],
         theorems={"Properties/C03.v": ["C03_woken_when_free", "C03_pending_is_arrivals", "C03_progress"]},
         runs=MUTEX_RUNS, keys=["r", "w"], assumptions=[SCHED_NOTE], monitor=dict(id=3, runs=["mutex-k3-unfair", "mutex-k3-fair"]),
         level_text="Theorem over all histories: whenever the mutex is free and lock futures are pending, a pending future (fair: the oldest in trace-recomputed arrival order) has been woken since its last poll through the waker of that poll (tracker defined on the observable trace); a notified future polled while free succeeds. Correspondence compares results and ordered wake lists on every transition of the k=3 state space with waker swaps.",
@@ -191,7 +191,7 @@ PROPS = {
         level_note="Kernel-checked on the Gallina model; tie to the code by differential execution.",
     ),
     "C05": dict(
-        level="proof", extra=["atomic_audit"], coq_files=["Properties/C05.v"],
+        level="proof", extra=["atomic_audit", "threads"], coq_files=["Properties/C05.v"],
         theorems={"Properties/C05.v": ["C05_ledger", "C05_grant_exact", "C05_releaser_once", "C05_disarm"]},
         runs=SEM_RUNS, keys=["r", "p"], assumptions=[SCHED_NOTE, "permits + release amounts stay below usize::MAX (source has a TODO: overflow check)"],
         monitor=dict(id=5, runs=["sem-k2-unfair", "sem-k2-fair"]),
@@ -199,7 +199,7 @@ PROPS = {
         level_note="Overflow of the permit counter is excluded by the contract predicate. " + SCHED_NOTE,
     ),
     "C06": dict(
-        level="proof", extra=["atomic_audit"], coq_files=["Properties/C06.v"],
+        level="proof", extra=["atomic_audit", "threads"], coq_files=["Properties/C06.v"],
         theorems={"Properties/C06.v": ["C06_head_not_stranded", "C06_progress", "C06_refuted_pinned"]},
         runs=SEM_RUNS, keys=["r", "w", "p"], assumptions=[SCHED_NOTE, "wakers private to each future (so that wake events are attributable from the trace)"],
         monitor=dict(id=6, runs=["sem-k2-unfair", "sem-k2-fair"]),
@@ -215,7 +215,7 @@ PROPS = {
         level_note="Kernel-checked on the Gallina model; tie to the code by differential execution.",
     ),
     "C08": dict(
-        level="proof", extra=["atomic_audit"], coq_files=["Properties/C08.v"],
+        level="proof", extra=["atomic_audit", "threads"], coq_files=["Properties/C08.v"],
         theorems={"Properties/C08.v": ["C08_conservation", "C08_in_flight", "C08_drops_only_where_allowed"]},
         runs=MPMC_RUNS, keys=["r", "v", "p"], monitor=dict(id=8, runs=["mpmc-c0", "mpmc-c1", "mpmc-c2", "mpmc-shared-c1"]),
         assumptions=[SCHED_NOTE, "values uniquely tagged"],
@@ -223,7 +223,7 @@ PROPS = {
         level_note="Tie to the code by differential execution on exhaustive k=2x2 (caps 0..2) spaces + random histories. " + SCHED_NOTE,
     ),
     "C09": dict(
-        level="proof", extra=["atomic_audit"], coq_files=["Properties/C09.v"],
+        level="proof", extra=["atomic_audit", "threads"], coq_files=["Properties/C09.v"],
         theorems={"Properties/C09.v": ["C09_fifo", "C09_refines_queue", "C09_capacity"]},
         runs=MPMC_RUNS, keys=["r", "v", "p"], monitor=dict(id=9, runs=["mpmc-c0", "mpmc-c1", "mpmc-c2"]),
         assumptions=[SCHED_NOTE, "values uniquely tagged"],
@@ -231,7 +231,7 @@ PROPS = {
         level_note="Per-producer order under real thread schedules follows only with the atomicity assumptions. " + SCHED_NOTE,
     ),
     "C10": dict(
-        level="proof", extra=["atomic_audit"], coq_files=["Properties/C10.v"],
+        level="proof", extra=["atomic_audit", "threads"], coq_files=["Properties/C10.v"],
         theorems={"Properties/C10.v": ["C10_recv_woken_trace", "C10_recv_woken", "C10_sender_woken", "C10_after_close_all_woken", "C10_progress", "C10_sender_progress"]},
         runs=MPMC_RUNS, keys=["r", "w", "p"], monitor=dict(id=10, runs=["mpmc-c0", "mpmc-c1", "mpmc-shared-c0"]),
         assumptions=[SCHED_NOTE],
@@ -239,7 +239,7 @@ PROPS = {
         level_note="'Never deadlock' is the safety invariant + one-step progress, not a temporal theorem. " + SCHED_NOTE,
     ),
     "C11": dict(
-        level="proof", extra=["atomic_audit"], coq_files=["Properties/C11.v", "Properties/C11b.v", "Properties/C13.v"],
+        level="proof", extra=["atomic_audit", "threads"], coq_files=["Properties/C11.v", "Properties/C11b.v", "Properties/C13.v"],
         theorems={"Properties/C11.v": ["C11_close_status", "C11_closed_monotone", "C11_send_after_close", "C11_close_wakes_all", "C11_drain_then_none", "C11_implicit_close", "C11_last_receiver_clears"],
                   "Properties/C11b.v": ["C11b_close_status", "C11b_closed_monotone", "C11b_implicit_close", "C11b_refuted_pinned"],
                   "Properties/C13.v": ["C11c_close_status", "C11c_closed_monotone", "C11c_implicit_close"]},
@@ -249,21 +249,21 @@ PROPS = {
         level_note="Handle-count atomics' memory orderings are assumed; interleavings are of whole atomic sections. " + SCHED_NOTE,
     ),
     "C12": dict(
-        level="proof", extra=["atomic_audit"], coq_files=["Properties/C12.v"],
+        level="proof", extra=["atomic_audit", "threads"], coq_files=["Properties/C12.v"],
         theorems={"Properties/C12.v": ["C12_protocol", "C12_single_send", "C12_wakes_all", "C12_queue_exact"]},
         runs=ONESHOT_RUNS, keys=["r", "w", "p", "v"], monitor=dict(id=12, runs=ONESHOT_RUNS), assumptions=[SCHED_NOTE],
         level_text="Theorem over all histories, single-consumer and broadcast, borrowed and shared: the oneshot monitor holds on the trace (first send on an open channel succeeds, all others fail returning their value; single consumer: exactly one receive yields the value, others None; broadcast: every completion after the send yields it, None only if closed without value; receivers pending at send/close woken through latest wakers).",
         level_note=SCHED_NOTE,
     ),
     "C13": dict(
-        level="proof", extra=["atomic_audit"], coq_files=["Properties/C13.v"],
+        level="proof", extra=["atomic_audit", "threads"], coq_files=["Properties/C13.v"],
         theorems={"Properties/C13.v": ["C13_protocol", "C13_send", "C13_ids_bounded", "C13_wakes_all", "C13_queue_exact", "C13_after_close"]},
         runs=STATE_RUNS, keys=["r", "w", "p", "v"], monitor=dict(id=13, runs=["state-local", "state-shared"]), assumptions=[SCHED_NOTE],
         level_text="Theorem over all histories: the state-broadcast monitor holds on the trace (ids strictly increase, sends rejected only when closed or at u64::MAX and return their value; receive/try_receive complete only with the latest state and its id and only if newer than requested; None only after close for up-to-date receivers; waiting receivers woken by the next send or close). The u64::MAX arm is reached in the correspondence through a cfg-guarded hook presetting the id.",
         level_note=SCHED_NOTE,
     ),
     "C15": dict(
-        level="proof", extra=["atomic_audit"], coq_files=["Properties/C15.v"],
+        level="proof", extra=["atomic_audit", "threads"], coq_files=["Properties/C15.v"],
         theorems={"Properties/C15.v": ["C15_protocol", "C15_heap_exact", "C15_pheap_insert", "C15_pheap_remove", "C15_pheap_min", "C15_delay_saturating"]},
         runs=TIMER_RUNS, keys=["r", "w", "p"], monitor=dict(id=15, runs=["timer-k3", "timer-delay"]), assumptions=[SCHED_NOTE, "Clock::now() is monotone"],
         level_text="Theorem over all histories (any number of timers, duplicate deadlines): the timer monitor holds on the trace (never early; check_expirations wakes all and only the due registered futures through latest wakers in non-decreasing deadline order; next_expiration = min registered deadline; delay saturates); tree-level pairing heap theorems (permutation of elements, heap order preserved, root = minimum); the heap holds exactly the registered futures. The model reproduces the crate's heap SHAPE: correspondence compares the pre-order heap snapshot (hook), results, probes and ordered wakes on every transition of k=4 spaces.",
@@ -297,7 +297,7 @@ PROPS = {
         technique="translator (Rust source -> Coq data) + Coq proof by exhaustive case analysis + rustc probe validation",
     ),
     "C14": dict(
-        level="proof", extra=["atomic_audit"],
+        level="proof", extra=["atomic_audit", "threads"],
         coq_files=["Properties/C14.v"],
         theorems={"Properties/C14.v": ["C14_iff_latched", "C14_set_wakes_all", "C14_reset_inert", "C14_is_set", "C14_is_set_probe"]},
         prims=["event"], keys=["r", "ws", "p"], monitor=dict(id=14, runs=["event-k3", "event-k3-set"]),
